@@ -471,3 +471,22 @@ Proof.
   { destruct Hsuf as [k ->]. rewrite firstn_length, skipn_length. lia. }
   exact (deflate_finish_works data flags wb Hraw Hwb acc c n _ _ out_len code ncons out c' HD HDz Hpre Hlen Hol Hd).
 Qed.
+
+(* the running checksum of the compressor: after ANY schedule of deflate() calls that has not ended the stream, while
+   the last block has not been written, the compressor's adler32 field is the Adler-32 of exactly the input consumed *)
+Theorem level0_running_adler (data : list N) (flags wb : N) sched c rest acc n :
+  hasf flags FLAG_RAW = true -> wb <= 15 ->
+  Forall (fun it => legal_mz_flush (snd it)) sched ->
+  dreach (comp_new flags wb) data sched [] 0 = Some (c, rest, acc, n) ->
+  hasf flags FLAG_ZLIB = true -> c_finished c = false -> c_prev c = TOkay ->
+  c_adler c = adler32 1 (firstn (N.to_nat n) data) /\ n <= N.of_nat (length data).
+Proof.
+  intros Hraw Hwb Hleg Hreach Hz Hnf Hprev.
+  assert (H0 : RS data flags wb (comp_new flags wb) data [] 0).
+  { split; [left; apply (GI2_init data flags wb)|]. split; [unfold Dz, comp_new; cbn; lia|].
+    split; [intros _; reflexivity|exists 0%nat; reflexivity]. }
+  destruct (dreach_RS data flags wb Hraw Hwb sched _ _ _ _ _ _ _ _ Hleg H0 Hreach) as (HD & _).
+  destruct HD as [[_ [(A & HBI & _ & Hn & Had)|[Hfin _]]]|[Hp _]]; [|congruence|congruence].
+  destruct HBI as ((_ & _ & _ & _ & _ & F6) & Hle & _).
+  split; [rewrite F6; exact (Had Hz)|]. unfold total in Hle. lia.
+Qed.
